@@ -6,10 +6,14 @@
        Arrive(m)                      the server made client event m available (0 = disconnect)
        SrvRecvCall / SrvRecvRet(m) / SrvRecvCancel     the framework's use of the server's receive()
        SrvSend(t)                     send / close handed to the server
+       SrvRecvFail                    the server's receive() raised into the framework (injected fault)
        AppCall(op) / AppRet(op, r, p) application call and its return (r: message, 0 disconnected,
                                       -2 ok, -3 cancelled, -9 unexpected exception; p: stray tasks)
        Cancel                         the pending receive was cancelled
-       End(p, o) / Final(p, o)        quiescence after the script / after the framework's own close
+       End(p, o, b) / Final(p, o)     quiescence after the script (b = 1: the system never became quiet) /
+                                      after the framework's own close
+   receive calls come from the reader task, send/close calls from the writer task (see WsBuffer);
+   a receive may be pending while the other task sends or closes.
    Queue, in-hand event, waiters and the pump's position are NOT logged: TLC infers them through
    at most MaxSil silent steps between two logged events.
 
@@ -19,6 +23,7 @@
      P:bound, P:pull_after_disconnect, P:pull, P:pull_without_receive, P:reader_cancelled
      P:send_after_disconnect, P:send_spurious_disconnect, P:send_error, P:close_error
      P:left_waiting, P:left_running
+     D:busy_wait      (detail: something keeps polling although nothing is owed to the application)
      D:pump_stalled   (detail: the reader did not resume although no receive was waiting)
      D:close_order    (detail: the reader was cancelled before, not after, the close event was sent)
      D:wire           (detail: a send/close event the model does not expect at this point)
@@ -32,11 +37,12 @@ Traces == JsonDeserialize(IOEnv.TRACE_FILE)
 ERR == -9
 
 VARIABLES tid, l, sil, verdict,
-          due,    \* a call completed in the model; its AppRet has not been read yet
+          rdue,   \* a receive completed in the model; its AppRet has not been read yet
+          wdue,   \* a send/close completed in the model; its AppRet has not been read yet
           wire,   \* "none" | "due" | "done": the SrvSend belonging to the running send/close
           creq,   \* a cancellation was requested and not yet reported
           rawc    \* unbuffered mode: the running receive has called the server
-jx == <<due, wire, creq, rawc>>
+jx == <<rdue, wdue, wire, creq, rawc>>
 jvars == <<vars, tid, l, sil, verdict, jx>>
 
 T    == Traces[tid]
@@ -45,7 +51,7 @@ Ev   == T.ev[l]
 Is(e) == More /\ Ev.e = e
 
 JInit == /\ tid \in 1..Len(Traces) /\ l = 1 /\ sil = 0 /\ verdict = "ok"
-         /\ due = FALSE /\ wire = "none" /\ creq = FALSE /\ rawc = FALSE
+         /\ rdue = FALSE /\ wdue = FALSE /\ wire = "none" /\ creq = FALSE /\ rawc = FALSE
          /\ InitWith(Traces[tid].mq, Traces[tid].all)
 
 Logged == l' = l + 1 /\ sil' = 0 /\ UNCHANGED <<tid, verdict>>
@@ -53,61 +59,67 @@ Silent == More /\ sil < MaxSil /\ sil' = sil + 1 /\ UNCHANGED <<tid, l, verdict,
 
 (* ---------------- logged steps: a boundary event bound to an action of WsBuffer ---------------- *)
 JArrive     == Is("Arrive") /\ srv # <<>> /\ Head(srv) = Ev.m /\ SrvArrive /\ Logged /\ UNCHANGED jx
+JSrvFail    == Is("SrvRecvFail") /\ SrvFail /\ Logged /\ UNCHANGED jx
 JPumpCall   == Is("SrvRecvCall") /\ mq > 0 /\ ~disc /\ PumpLoop /\ Logged /\ UNCHANGED jx
-JRawCall    == Is("SrvRecvCall") /\ mq = 0 /\ apc = "recvRaw" /\ pull = "app" /\ ~rawc
-               /\ rawc' = TRUE /\ UNCHANGED vars /\ Logged /\ UNCHANGED <<due, wire, creq>>
+JRawCall    == Is("SrvRecvCall") /\ mq = 0 /\ rpc = "recvRaw" /\ pull = "app" /\ ~rawc
+               /\ rawc' = TRUE /\ UNCHANGED vars /\ Logged /\ UNCHANGED <<rdue, wdue, wire, creq>>
 JPumpGot    == Is("SrvRecvRet") /\ mq > 0 /\ avail # <<>> /\ Head(avail) = Ev.m /\ PumpGot /\ Logged /\ UNCHANGED jx
 JRawGot     == Is("SrvRecvRet") /\ mq = 0 /\ rawc /\ avail # <<>> /\ Head(avail) = Ev.m /\ RecvRawRet
-               /\ due' = TRUE /\ rawc' = FALSE /\ Logged /\ UNCHANGED <<wire, creq>>
+               /\ rdue' = TRUE /\ rawc' = FALSE /\ Logged /\ UNCHANGED <<wdue, wire, creq>>
 JPumpCancel == Is("SrvRecvCancel") /\ pull = "pump" /\ PumpCancelled /\ Logged /\ UNCHANGED jx
 JRawCancel  == Is("SrvRecvCancel") /\ pull = "app" /\ creq /\ rawc
-               /\ rawc' = FALSE /\ UNCHANGED vars /\ Logged /\ UNCHANGED <<due, wire, creq>>
-JAppCall    == /\ Is("AppCall") /\ apc = "idle" /\ ~due
-               /\ \/ Ev.op = "recv" /\ AppRecv
-                  \/ Ev.op = "send" /\ AppSend
+               /\ rawc' = FALSE /\ UNCHANGED vars /\ Logged /\ UNCHANGED <<rdue, wdue, wire, creq>>
+JCallRecv   == /\ Is("AppCall") /\ Ev.op = "recv" /\ rpc = "idle" /\ ~rdue
+               /\ AppRecv /\ rdue' = RReturned
+               /\ Logged /\ UNCHANGED <<wdue, wire, creq, rawc>>
+JCallWrite  == /\ Is("AppCall") /\ Ev.op \in {"send", "close"} /\ wpc = "idle" /\ ~wdue
+               /\ \/ Ev.op = "send" /\ AppSend
                   \/ Ev.op = "close" /\ AppClose
-               /\ due' = Returned
-               /\ wire' = (IF apc' \in {"sending", "closeSending"} THEN "due" ELSE "none")
-               /\ Logged /\ UNCHANGED <<creq, rawc>>
-JRetDue     == Is("AppRet") /\ due /\ last = Res(Ev.op, Ev.r)
-               /\ due' = FALSE /\ UNCHANGED vars /\ Logged /\ UNCHANGED <<wire, creq, rawc>>
-JRetRecv    == Is("AppRet") /\ ~due /\ Ev.op = "recv" /\ Ev.r >= 0
-               /\ (RecvLoop \/ RecvWake) /\ Returned /\ last' = Res("recv", Ev.r)
+               /\ wdue' = WReturned
+               /\ wire' = (IF wpc' \in {"sending", "closeSending"} THEN "due" ELSE "none")
+               /\ Logged /\ UNCHANGED <<rdue, creq, rawc>>
+JRetDueR    == Is("AppRet") /\ Ev.op = "recv" /\ rdue /\ rlast = Ev.r
+               /\ rdue' = FALSE /\ UNCHANGED vars /\ Logged /\ UNCHANGED <<wdue, wire, creq, rawc>>
+JRetDueW    == Is("AppRet") /\ Ev.op # "recv" /\ wdue /\ wlast = Res(Ev.op, Ev.r)
+               /\ wdue' = FALSE /\ UNCHANGED vars /\ Logged /\ UNCHANGED <<rdue, wire, creq, rawc>>
+JRetRecv    == Is("AppRet") /\ ~rdue /\ Ev.op = "recv" /\ Ev.r >= 0       \* a pop, or the release of a pending
+               /\ (RecvLoop \/ RecvWake) /\ RReturned /\ rlast' = Ev.r     \* receive because the pump task ended
                /\ Logged /\ UNCHANGED jx
-JRetCancel  == Is("AppRet") /\ ~due /\ Ev.op = "recv" /\ Ev.r = CANCELLED /\ creq /\ ~rawc
-               /\ CancelRecv /\ creq' = FALSE /\ Logged /\ UNCHANGED <<due, wire, rawc>>
-JRetSend    == Is("AppRet") /\ ~due /\ Ev.op = "send" /\ Ev.r = OKR /\ wire = "done"
-               /\ SendRet /\ wire' = "none" /\ Logged /\ UNCHANGED <<due, creq, rawc>>
-JRetClose   == Is("AppRet") /\ ~due /\ Ev.op = "close" /\ Ev.r = OKR /\ Ev.p = 0 /\ ~pcancel /\ pull = "none"
-               /\ CloseFinish /\ wire' = "none" /\ Logged /\ UNCHANGED <<due, creq, rawc>>
-JWireSend   == Is("SrvSend") /\ Ev.t = "send" /\ apc = "sending" /\ wire = "due"
-               /\ wire' = "done" /\ UNCHANGED vars /\ Logged /\ UNCHANGED <<due, creq, rawc>>
-JWireClose  == Is("SrvSend") /\ Ev.t = "close" /\ apc = "closeSending" /\ wire = "due"
-               /\ wire' = "done" /\ UNCHANGED vars /\ Logged /\ UNCHANGED <<due, creq, rawc>>
-JCancel     == Is("Cancel") /\ Waiting /\ ~due /\ ~creq
-               /\ creq' = TRUE /\ UNCHANGED vars /\ Logged /\ UNCHANGED <<due, wire, rawc>>
+JRetCancel  == Is("AppRet") /\ ~rdue /\ Ev.op = "recv" /\ Ev.r = CANCELLED /\ creq /\ ~rawc
+               /\ CancelRecv /\ creq' = FALSE /\ Logged /\ UNCHANGED <<rdue, wdue, wire, rawc>>
+JRetSend    == Is("AppRet") /\ ~wdue /\ Ev.op = "send" /\ Ev.r = OKR /\ wire = "done"
+               /\ SendRet /\ wire' = "none" /\ Logged /\ UNCHANGED <<rdue, wdue, creq, rawc>>
+JRetClose   == Is("AppRet") /\ ~wdue /\ Ev.op = "close" /\ Ev.r = OKR /\ Ev.p = 0 /\ ~pcancel /\ pull # "pump"
+               /\ CloseFinish /\ wire' = "none" /\ Logged /\ UNCHANGED <<rdue, wdue, creq, rawc>>
+JWireSend   == Is("SrvSend") /\ Ev.t = "send" /\ wpc = "sending" /\ wire = "due"
+               /\ wire' = "done" /\ UNCHANGED vars /\ Logged /\ UNCHANGED <<rdue, wdue, creq, rawc>>
+JWireClose  == Is("SrvSend") /\ Ev.t = "close" /\ wpc = "closeSending" /\ wire = "due"
+               /\ wire' = "done" /\ UNCHANGED vars /\ Logged /\ UNCHANGED <<rdue, wdue, creq, rawc>>
+JCancel     == Is("Cancel") /\ Waiting /\ ~rdue /\ ~creq
+               /\ creq' = TRUE /\ UNCHANGED vars /\ Logged /\ UNCHANGED <<rdue, wdue, wire, rawc>>
 
 (* ---------------- silent steps: inferred ---------------- *)
 SilentEnabled ==
     \/ ~pcancel /\ ((ppc = "loop" /\ disc) \/ ppc = "checkSpace" \/ (ppc = "waitSpace" /\ putW = "set"))
     \/ pcancel /\ ppc \in Live /\ pull # "pump"
-    \/ apc = "recvLoop" /\ queue = <<>> /\ ppc # "done"
-    \/ apc = "recvWait" /\ popW = "set"
-    \/ apc = "closeSending" /\ wire = "done"
+    \/ rpc = "recvLoop" /\ queue = <<>> /\ ~PumpEnded
+    \/ rpc = "recvWait" /\ popW = "set"
+    \/ wpc = "closeSending" /\ wire = "done"
 SPumpDone   == Silent /\ disc /\ PumpLoop
 SPumpCheck  == Silent /\ PumpCheck
 SPumpWake   == Silent /\ PumpWake
 SPumpCancel == Silent /\ pull # "pump" /\ PumpCancelled
-SRecvWait   == Silent /\ apc = "recvLoop" /\ queue = <<>> /\ ppc # "done" /\ RecvLoop
-SRecvWake   == Silent /\ apc = "recvWait" /\ popW = "set" /\ RecvWake
+SRecvWait   == Silent /\ rpc = "recvLoop" /\ queue = <<>> /\ ~PumpEnded /\ RecvLoop
+SRecvWake   == Silent /\ rpc = "recvWait" /\ popW = "set" /\ RecvWake
 SCloseSent  == Silent /\ wire = "done" /\ CloseSent     \* the server's send(close) returned; only now is the pump cancelled
 
 (* ---------------- end of script: quiescence ---------------- *)
-LegitWait == Waiting /\ Quiet /\ ~due /\ ~creq /\ queue = <<>> /\ avail = <<>> /\ inhand = NIL
+LegitWait == Waiting /\ Quiet /\ ~rdue /\ ~creq /\ queue = <<>> /\ avail = <<>> /\ inhand = NIL
 EndVerdict ==
-    IF due \/ apc \in {"sending", "closeSending", "closing"} \/ (Waiting /\ ~LegitWait) THEN "P:left_waiting"
-    ELSE IF apc = "closed" /\ (Ev.p > 0 \/ Ev.o > 0 \/ pull # "none") THEN "P:left_running"
+    IF rdue \/ wdue \/ wpc \in {"sending", "closeSending", "closing"} \/ (Waiting /\ ~LegitWait) THEN "P:left_waiting"
+    ELSE IF wpc = "closed" /\ (Ev.p > 0 \/ pull = "pump" \/ (Ev.o > 0 /\ pull # "app")) THEN "P:left_running"
     ELSE IF ~Quiet THEN "D:pump_stalled"
+    ELSE IF Ev.b > 0 THEN "D:busy_wait"
     ELSE IF (Ev.o > 0) # (pull # "none") THEN "H:outstanding"
     ELSE "ok"
 JEnd   == Is("End") /\ ~SilentEnabled /\ verdict' = EndVerdict
@@ -115,9 +127,9 @@ JEnd   == Is("End") /\ ~SilentEnabled /\ verdict' = EndVerdict
 JFinal == Is("Final") /\ verdict' = (IF Ev.p > 0 \/ Ev.o > 0 THEN "P:left_running" ELSE "ok")
           /\ l' = l + 1 /\ sil' = 0 /\ UNCHANGED <<vars, tid, jx>>
 
-LoggedNext == JArrive \/ JPumpCall \/ JRawCall \/ JPumpGot \/ JRawGot \/ JPumpCancel \/ JRawCancel \/ JAppCall
-              \/ JRetDue \/ JRetRecv \/ JRetCancel \/ JRetSend \/ JRetClose \/ JWireSend \/ JWireClose \/ JCancel
-              \/ JEnd \/ JFinal
+LoggedNext == JArrive \/ JSrvFail \/ JPumpCall \/ JRawCall \/ JPumpGot \/ JRawGot \/ JPumpCancel \/ JRawCancel
+              \/ JCallRecv \/ JCallWrite \/ JRetDueR \/ JRetDueW \/ JRetRecv \/ JRetCancel \/ JRetSend \/ JRetClose
+              \/ JWireSend \/ JWireClose \/ JCancel \/ JEnd \/ JFinal
 SilentNext == SPumpDone \/ SPumpCheck \/ SPumpWake \/ SPumpCancel \/ SRecvWait \/ SRecvWake \/ SCloseSent
 
 (* ---------------- the clause a stuck run reports ---------------- *)
@@ -125,21 +137,22 @@ NextMsg == Cardinality({i \in 1..Len(taken) : taken[i] # DISC}) + 1
 Clause ==
     CASE Ev.e = "SrvRecvCall" ->
             IF mq = 0 THEN "P:pull_without_receive"
-            ELSE IF apc \in {"closing", "closed"} \/ ppc = "cancelled" THEN "P:left_running"
+            ELSE IF wpc \in {"closing", "closed"} \/ ppc \in Ended THEN "P:left_running"
             ELSE IF disc THEN "P:pull_after_disconnect"
             ELSE IF inhand # NIL THEN "P:bound"
             ELSE "P:pull"
       [] Ev.e = "SrvRecvRet" -> "H:server"
+      [] Ev.e = "SrvRecvFail" -> "H:fault"
       [] Ev.e = "Arrive" -> "H:arrive"
       [] Ev.e = "AppCall" -> "H:appcall"
       [] Ev.e = "Cancel" -> "H:cancel"
       [] Ev.e = "SrvRecvCancel" ->     \* cancelling the pump BEFORE the wire close also satisfies the property: detail
-            IF apc = "closeSending" /\ wire = "due" /\ pull = "pump" THEN "D:close_order" ELSE "P:reader_cancelled"
+            IF wpc = "closeSending" /\ wire = "due" /\ pull = "pump" THEN "D:close_order" ELSE "P:reader_cancelled"
       [] Ev.e = "SrvSend" ->
-            IF Ev.t = "send" /\ last = Res("send", DISC) /\ due THEN "P:send_after_disconnect"
+            IF Ev.t = "send" /\ wlast = Res("send", DISC) /\ wdue THEN "P:send_after_disconnect"
             ELSE "D:wire"
       [] Ev.e = "AppRet" /\ Ev.op = "recv" ->
-            IF Ev.r = ERR THEN "P:recv_error"
+            IF Ev.r = ERR THEN "P:recv_error"          \* an internal error reached the application from receive_*()
             ELSE IF Ev.r = CANCELLED THEN "H:cancelled"
             ELSE IF Ev.r = DISC THEN
                  (IF queue # <<>> /\ Head(queue) # DISC THEN "P:disconnect_before_messages" ELSE "P:recv_disconnect")
@@ -148,7 +161,7 @@ Clause ==
       [] Ev.e = "AppRet" /\ Ev.op = "send" ->
             IF Ev.r = ERR THEN "P:send_error"
             ELSE IF Ev.r = DISC THEN "P:send_spurious_disconnect"
-            ELSE IF due /\ last = Res("send", DISC) THEN "P:send_after_disconnect"
+            ELSE IF wdue /\ wlast = Res("send", DISC) THEN "P:send_after_disconnect"
             ELSE "P:send"
       [] Ev.e = "AppRet" /\ Ev.op = "close" ->
             IF Ev.r = ERR THEN "P:close_error" ELSE "P:left_running"
